@@ -44,9 +44,20 @@ fn spawn(slot: usize, key: u64, out: String, f: &dyn Fn() -> RunResult) -> Child
             unsafe {
                 let ncpu = libc::sysconf(libc::_SC_NPROCESSORS_ONLN).max(1) as usize;
                 let mut set: libc::cpu_set_t = std::mem::zeroed();
-                libc::CPU_SET(slot % ncpu, &mut set);
+                let base: usize = std::env::var("MEMSIM_PIN_BASE").ok().and_then(|s| s.parse().ok()).unwrap_or(0);
+                libc::CPU_SET((slot + base) % ncpu, &mut set);
                 libc::sched_setaffinity(0, std::mem::size_of::<libc::cpu_set_t>(), &set);
             }
+        }
+        // The simulated disk is finite: no file of this world grows beyond 256 MiB (a write or
+        // truncate past that fails with EFBIG, which the code under test sees as an I/O error).
+        // Without the bound a damaged length field can make open / doctor extend the memory by
+        // tens of gigabytes on the tmpfs that backs the scratch directories.
+        unsafe {
+            libc::signal(libc::SIGXFSZ, libc::SIG_IGN);
+            let cap: u64 = std::env::var("MEMSIM_FSIZE_MB").ok().and_then(|s| s.parse().ok()).unwrap_or(256) << 20;
+            let lim = libc::rlimit { rlim_cur: cap, rlim_max: cap };
+            libc::setrlimit(libc::RLIMIT_FSIZE, &lim);
         }
         // child: fresh scratch root, TMPDIR on tmpfs so that Tantivy's work dirs are too
         let root = crate::runner::scratch_root();
@@ -164,7 +175,8 @@ pub fn explore(def: &CheckDef, tier: Tier, base_seed: u64, known: &[String]) -> 
     // backstop and can only shorten the set). Thorough tier: as many seeds as fit in the budget.
     let env_budget = std::env::var("MEMSIM_BUDGET_S").is_ok();
     let max_runs: u64 = std::env::var("MEMSIM_MAX_RUNS").ok().and_then(|s| s.parse().ok()).unwrap_or(if tier == Tier::Quick && !env_budget { crate::checks::quick_runs(def.id) } else { u64::MAX });
-    let budget = if tier == Tier::Quick && !env_budget { budget * 3 } else { budget };
+    let mult: u32 = std::env::var("MEMSIM_BACKSTOP_MULT").ok().and_then(|s| s.parse().ok()).unwrap_or(3);
+    let budget = if tier == Tier::Quick && !env_budget { budget * mult } else { budget };
     let timeout = Duration::from_secs(match tier {
         Tier::Quick => 400,
         Tier::Thorough => 900,
